@@ -91,3 +91,8 @@ CHECKS["C08"] = ("exploration",
    "The same kind of sheets (gaps between rows, data at the start / far down / near the last row) is written in all four formats; for every candidate header row in random order the range must start exactly at n iff data exists at or below n, its used cells must be exactly the default-option cells of rows >= n, the borrowed path must agree, no call may panic, and switching back must restore the default result.",
    "trusted base: the four reference encoders; header rows far above the data only when the dense range stays small",
    "DESIGN.md §7 C08")
+CHECKS["C07"] = ("exploration",
+   "runtime monitoring: recorded call histories checked offline (single result per key, fresh-reader reference, cross-path equalities, auto-detection, hooked state digest)",
+   "Call histories with heavy repetition and interleaving over the whole Reader/ReaderRef API (incl. failing calls and header-row changes) are recorded on generated workbooks of all four formats; an offline checker requires one result per (operation, arguments, option) key, equality with a fresh reader, agreement of worksheet_range / range_ref / range_at / worksheets(), errors for unknown names, agreement of the auto-detected reader, and an unchanged digest of the reader's immutable state after every call.",
+   "results compared through Debug renderings; trusted base: the reference encoders",
+   "DESIGN.md §7 C07")
